@@ -76,7 +76,15 @@ def _judge(ctx, rid: str, kind: str) -> List[R.Inst]:
         counts[base] = n + 1
         key = _key(s, n)
         tags = [t for t in s.tags if t.kind != "scalar"]
-        tri = TRIAGE.get((short(s.fn), s.kind, s.what, _norm_operand(s.operands[0]) if s.operands else ""))
+        opk = _norm_operand(s.operands[0]) if s.operands else ""
+        tri = TRIAGE.get((short(s.fn), s.kind, s.what, opk))
+        if tri is None and s.fn.rsplit(".", 1)[-1].startswith("_"):
+            # the triaged construct moved into a private helper of the same module: the reading that judged it benign was about the
+            # construct (and the entry point that reaches it), not about the name of the function that holds it
+            mod_ = s.fn.rsplit(".", 1)[0]
+            for (f_, k_, w_, o_), why_ in TRIAGE.items():
+                if ("reamber." + f_).rsplit(".", 1)[0] == mod_ and (k_, w_, o_) == (s.kind, s.what, opk):
+                    tri = why_ + f" [in the private helper {s.fn.rsplit('.', 1)[-1]} of {f_.rsplit('.', 1)[-1]}]"
         if kind == "pairing":
             if len(tags) < 2:
                 continue
